@@ -56,12 +56,12 @@ goroutine gets enough turns: the relay returns, each side has received a prefix 
 bytes in order, and all of them unless that side itself refused a Write. -/
 theorem C12_tcp_fair (A B : EP) (σ τ : List TTok) (hτ : plainT τ)
     (ha : stepsFor A.reads ≤ τ.count .a) (hb : stepsFor B.reads ≤ τ.count .b) :
-    holdsTcp A B (tcpObs (tcpRun A B (σ ++ [.ax, .bx] ++ τ))) = true :=
+    holdsTcp A B (tcpObs A B (tcpRun A B (σ ++ [.ax, .bx] ++ τ))) = true :=
   holdsTcp_of A B _ (tcpRun_inv A B _) (tcpRun_returned A B σ τ hτ ha hb)
 
 /-- The same for the run the driver executes: an arbitrary schedule prefix, then the fixed drain order. -/
 theorem C12_tcp (A B : EP) (σ : List TTok) :
-    holdsTcp A B (tcpObs (tcpRun A B (tcpComplete A B σ))) = true := by
+    holdsTcp A B (tcpObs A B (tcpRun A B (tcpComplete A B σ))) = true := by
   rw [tcpComplete_eq]
   exact C12_tcp_fair A B σ _ (drain_plain _ _) (drain_counts _ _).1 (drain_counts _ _).2
 
@@ -79,9 +79,10 @@ theorem C12_tcp_returns (A B : EP) (σ τ : List TTok) :
       (tcpRun A B (σ ++ [.ax, .bx] ++ τ)).returned = true) :=
   ⟨by simp [TcpSt.returned], tcpRun_returned A B σ τ⟩
 
-/-- **Half-close does not stop the reverse direction**: in any state in which A→B has finished (A reached
-EOF or failed, B's write side was half-closed) the next B→A iteration still delivers B's next chunk
-to A, and leaves the finished direction untouched. -/
+/-- **Half-close does not stop the reverse direction**, for EVERY kind of endpoint object (`A.kind`, `B.kind`
+are arbitrary): in any state in which A→B has finished (A reached EOF or failed; `tryCloseWrite(B)` was
+issued — a real half-close for a `cw` endpoint, nothing at all for the wrapper kinds) the next B→A
+iteration still delivers B's next chunk to A, and leaves the finished direction untouched. -/
 theorem C12_tcp_reverse_continues (A B : EP) (s : TcpSt) (c : Bytes) (cs : List Bytes)
     (_hab : s.ab.done = true) (hq : s.baHeld = none) (hba : s.ba.done = false) (hp : s.ba.pending = c :: cs)
     (hne : c.isEmpty = false) (hle : c.length ≤ cloudconstants.CopyBufferSize)
@@ -90,6 +91,26 @@ theorem C12_tcp_reverse_continues (A B : EP) (s : TcpSt) (c : Bytes) (cs : List 
   refine ⟨?_, by simp [tcpStep, hq]⟩
   simp only [tcpStep, hq, Option.isSome_none, Bool.false_eq_true, if_false, dirStep, hba, hp, rdNext, hle, if_true, hne, hacc]
   split <;> rfl
+
+/-- **What `tryCloseWrite` does, per kind**: a half-close reaches socket B exactly when A→B has finished and
+B implements `CloseWrite`; for the wrapper kinds (`same`: reader and writer are the same transport conn, as all
+production callers build the tunnel side; `split`; `none`) nothing reaches the transport — the peer sees the end
+of that direction only at the final `Close`, which is issued only after BOTH directions have finished. -/
+theorem C12_tcp_halfclose_by_kind (A B : EP) (σ : List TTok) :
+    ((tcpObs A B (tcpRun A B σ)).cwB = true ↔ (tcpRun A B σ).ab.done = true ∧ B.kind = .cw) ∧
+    ((tcpObs A B (tcpRun A B σ)).cwA = true ↔ (tcpRun A B σ).ba.done = true ∧ A.kind = .cw) ∧
+    ((tcpObs A B (tcpRun A B σ)).closed = true ↔ (tcpRun A B σ).ab.done = true ∧ (tcpRun A B σ).ba.done = true) := by
+  refine ⟨?_, ?_, by simp [tcpObs, TcpSt.returned]⟩
+  · cases hk : B.kind <;> simp [tcpObs, tryCloseWrite, hk]
+  · cases hk : A.kind <;> simp [tcpObs, tryCloseWrite, hk]
+
+/-- The two functions through which a half-close travels, as regenerated from the source:
+`tryCloseWrite` tries `*net.TCPConn` then the `CloseWriter` interface and otherwise does nothing;
+`readWriteCloser.CloseWrite` tries `closeWriteFunc`, then the Writer's `CloseWrite`, and otherwise does
+nothing — in particular it never calls `Close` on anything. -/
+theorem skel_closeWrite : Gen.Skel.tryCloseWrite = ["tcpConn.CloseWrite", "cw.CloseWrite"] ∧
+    Gen.Skel.readWriteCloser_CloseWrite = ["closeWriteFunc", "cw.CloseWrite"] ∧
+    Gen.Skel.readWriteCloser_Close = ["closeFunc"] := by decide
 
 /-- **A slow Write does not stop the other direction either**: while A→B is blocked inside a Write on B
 (the sink holds a reference to A→B's copy buffer), every B→A step runs exactly as if nothing were
@@ -263,17 +284,19 @@ example :
 
 example : wfDgram [7] = true ∧ [[7], [8, 9]].all wfDgram = true ∧ completeBefore [[7], [8, 9]] 6 = [[7]] := by decide
 
-/-- A TCP case in which A's chunk is stuck in a slow Write on B while B sends, then A half-closes and B
-keeps sending: everything arrives. -/
+/-- A TCP case built like production (local socket with CloseWrite, tunnel = `NewReadWriteCloser(conn, conn, …)`):
+A's chunk is stuck in a slow Write on B while B sends, then A half-closes and B keeps sending: everything
+arrives, and no half-close reaches the tunnel transport. -/
 example :
-    let A : EP := ⟨[[1, 2]], .eof, false, none, false⟩
-    let B : EP := ⟨[[3], [4, 5]], .eof, false, none, false⟩
-    (tcpObs (tcpRun A B (tcpComplete A B [.ah, .b, .ax, .a, .b, .b]))).toA = [3, 4, 5] ∧
-    (tcpObs (tcpRun A B (tcpComplete A B [.ah, .b, .ax, .a, .b, .b]))).toB = [1, 2] := by
+    let A : EP := ⟨[[1, 2]], .eof, false, none, false, .cw⟩
+    let B : EP := ⟨[[3], [4, 5]], .eof, false, none, false, .same⟩
+    (tcpObs A B (tcpRun A B (tcpComplete A B [.ah, .b, .ax, .a, .b, .b]))).toA = [3, 4, 5] ∧
+    (tcpObs A B (tcpRun A B (tcpComplete A B [.ah, .b, .ax, .a, .b, .b]))).toB = [1, 2] ∧
+    (tcpObs A B (tcpRun A B (tcpComplete A B [.ah, .b, .ax, .a, .b, .b]))).cwB = false := by
   decide
 
 /-- `holdsTcp` is not trivially true: an observation that lost a byte fails it. -/
-example : holdsTcp ⟨[[1, 2]], .eof, false, none, false⟩ ⟨[], .eof, false, none, false⟩
+example : holdsTcp ⟨[[1, 2]], .eof, false, none, false, .cw⟩ ⟨[], .eof, false, none, false, .same⟩
     ⟨true, [1], [], false, false, false, true, true, true, 1, 0, .none, .none⟩ = false := by decide
 
 /-- `holdsUdp` is not trivially true: a relay that dropped the datagram before the cut fails it. -/
